@@ -289,3 +289,14 @@ package httpgen
 //@   loop 1 invariant count("P:{QueryName: ") == old(count("P:{QueryName: ")) + spec.totalQueryParams(service.Methods, _i1)
 //@   loop 2 invariant count("P:{QueryName: ") == old(count("P:{QueryName: ")) + spec.totalQueryParams(service.Methods, _i1)
 //@   loop 3 invariant count("P:{QueryName: ") == old(count("P:{QueryName: ")) + spec.totalQueryParams(service.Methods, _i1) + _i3 && len(queryParams) == len(annotations.GetQueryParams(service.Methods[_i1].Input))
+
+// ---- the registered route is the decided route (C03/C01: dataflow from the deciding functions to the emitted text) ----
+// every RPC gets exactly one mux.Handle line, and its pattern is "<verb> <path>" with the verb and path the deciding
+// functions return for that RPC; the verb handed to BindingMiddleware (which decides whether a body is read) is the same verb
+//@ func (g *Generator) generateService(gf *protogen.GeneratedFile, file *protogen.File, service *protogen.Service) (err error)
+//@   requires service != nil && file != nil
+//@   modifies *
+//@   at-call P:config.mux.Handle( requires route_as_decided: line == "config.mux.Handle(\"" + g.getHTTPMethod(method) + " " + g.getMethodPath(method, g.getServiceBasePath(service), file.GoPackageName) + "\", " + annotations.LowerFirst(method.GoName) + "Handler)"
+//@   at-call "P:", config.errorHandler," requires middleware_verb_as_decided: line == "\"" + g.getHTTPMethod(method) + "\", config.errorHandler,"
+//@   loop 2 invariant count("P:config.mux.Handle(") == old(count("P:config.mux.Handle(")) + _i2
+//@   ensures one_route_per_rpc: err == nil ==> count("P:config.mux.Handle(") == old(count("P:config.mux.Handle(")) + len(service.Methods)
